@@ -852,11 +852,11 @@ class Context(MetadataContextMixin, object):
         try:
             if metadata is None:
                 if store.contains(key):
-                    state.error(
+                    state.log_error(
                         f"Key '{key}' was found in store, but the metadata is missing."
                     )
                 else:
-                    state.error(f"Metadata for key '{key}' not found in store")
+                    state.log_error(f"Metadata for key '{key}' not found in store")
 
             if (
                 resource_query.header is not None
@@ -875,15 +875,15 @@ class Context(MetadataContextMixin, object):
                 if data is None:
                     if store.contains(key):
                         if store.is_dir(key):
-                            state.error(
+                            state.log_error(
                                 f"Key '{key}' is a directory, hence there is no data."
                             )
                         else:
-                            state.error(
+                            state.log_error(
                                 f"Key '{key}' was found in store, but the data is missing."
                             )
                     else:
-                        state.error(f"Key '{key}' not found in store")
+                        state.log_error(f"Key '{key}' not found in store")
 
             state = state.with_data(data)
             state.metadata["resource_metadata"] = metadata
@@ -900,6 +900,8 @@ class Context(MetadataContextMixin, object):
                 query=resource_query.encode(),
             )
             traceback.print_exc()
+            # The resource could not be read: the returned state must say so
+            state.log_error(f"Error evaluating resource {resource_query}")
         return state
 
     def create_initial_state(self, input_value=None):
@@ -1102,6 +1104,9 @@ class Context(MetadataContextMixin, object):
                 state.metadata["created"] = self.now()
                 self.debug(f"ERROR in '{state.query}'")
                 # Keep the failure (error flag and log) in the metadata cached for this query too
+                state.metadata["child_log"] = state.metadata.get("child_log", []) + [
+                    x for x in self.child_log if x not in state.metadata.get("child_log", [])
+                ]
                 cache.store_metadata(state.metadata)
                 self._store_state(state)
                 state = self.index_state(state)
